@@ -1,17 +1,41 @@
 (* C20 - Replaying a definition into another builder preserves variants and data.
-   FULL STATEMENT (target):  for every definition def = build (run h) with hist_ok h and every target
-   strategy s, convert def s empty_builder = COk (vm, m, tgt) with vm = [(0,0); ...; (n-1,n-1)],
-   length (b_vs tgt) = length (snd def), m injective on the data of def, and for every source variant k
-   the k-th target variant is the image under m of the k-th source variant with equal names and type
-   information.
-   PROVED SO FAR (named _partial): the shape of the returned map.  The rest of the statement is
-   decided on every run by the correspondence engine E1 (model = implementation on every replay,
-   into 4 native + 2 generic targets) together with the C20 oracle evaluated on the implementation's
-   results, and by the bounded sweep below (a test, not the unbounded claim). *)
-From Coq Require Import List NArith Lia.
+
+   C20 (below) is the full statement for native targets: for every definition produced by a history of
+   valid requests (any mixture of the four shipped strategies) and every native target strategy, the
+   conversion helper of definition/convert.rs, run on a fresh builder with the callbacks every caller in
+   the repository uses (copy_datum / remove_datum / close), succeeds - no request is refused, no map lookup
+   panics - and returns the identity variant map (one target variant per source variant, in order), a
+   single datum map m that is injective on the data of the definition, and a target whose k-th variant is
+   the image under m of the k-th source variant, every pair of data having the same name, type, size,
+   alignment and uninit flag.  (Variants are compared as sets: the order inside a variant is the layout
+   order chosen by the target strategy.)
+   For the two generic targets (which assign no offsets) only the shape of the variant map is proved
+   (C20_partial); the rest is decided on every run by the correspondence engine E1 and its C20 oracle. *)
+From Coq Require Import List NArith Lia Permutation.
 From Truc.Model Require Import Layout Builder.
-From Truc.Proofs Require Import ConvertP.
+From Truc.Proofs Require Import Variants BuilderInv Refine12 ConvertP Replay.
 Import ListNotations.
+
+Theorem C20 : forall h s, hist_ok h -> native s ->
+  let ds := b_ds (run h) in let vs := b_vs (run h) in
+  exists m tgt,
+    convert (ds, vs) s empty_builder = COk (map (fun k => (k, k)) (seq 0 (length vs)), m, tgt) /\
+    b_add tgt = [] /\ b_rm tgt = [] /\
+    Forall2 (fun v' v => Permutation v' (map (mget m) v)) (b_vs tgt) vs /\
+    (forall v i, In v vs -> In i v ->
+       exists i', assoc m i = Some i' /\ (i' < length (b_ds tgt))%nat /\ same5 (getd ds i) (getd (b_ds tgt) i')) /\
+    (forall v1 v2 i1 i2, In v1 vs -> In v2 vs -> In i1 v1 -> In i2 v2 -> mget m i1 = mget m i2 -> i1 = i2).
+Proof.
+  intros h s Hh Hs ds vs.
+  destruct (convert_iso ds vs s (run_src_ok h Hh) Hs) as (m & tgt & E & A & R & _ & V & D & J).
+  exists m, tgt. auto 10.
+Qed.
+Print Assumptions C20.
+
+(* what the proof rests on: identifiers are never reused and consecutive variants differ *)
+Theorem C20_source : forall h, hist_ok h -> src_ok (b_ds (run h)) (b_vs (run h)).
+Proof. exact run_src_ok. Qed.
+Print Assumptions C20_source.
 
 Theorem C20_partial : forall d s b vm m b', convert d s b = COk (vm, m, b') ->
   map fst vm = seq 0 (length (snd d)).
